@@ -192,10 +192,12 @@ pub fn gen_plan(ch: &mut Choices, mode: &str, thorough: bool) -> Plan {
             _ => 32,
         }
     };
-    let max_size = match ch.weighted(&[3, 3, 2]) {
+    let max_size = match ch.weighted(&[6, 6, 4, 1]) {
         0 => 1 << 30,
         1 => 40 + ch.choose(400) as usize,
-        _ => 1 + ch.choose(40) as usize,
+        2 => 1 + ch.choose(40) as usize,
+        // boundary values: nothing ever fits / everything always fits
+        _ => *ch.pick(&[0usize, usize::MAX]),
     };
     // templates: prefix / ext variety, including dotted prefixes and sibling-extending names
     let (template, siblings): (&str, &[&str]) = if c11 {
